@@ -171,6 +171,8 @@ impl<V: Clone> CacheRing<V> {
         let index = self.index.read();
         if let Some(&slot_idx) = index.get(&key_hash) {
             drop(index);
+            #[cfg(feature = "neumann_verif")]
+            crate::verif_hooks::yield_point("cache.get.after_index");
 
             let mut slots = self.slots.write();
             if let Some(ref mut entry) = slots[slot_idx] {
